@@ -807,6 +807,7 @@ func main() {
 	c.Rule += " Shared controller: three XRs of the kind served in turn by ONE reconciler (one fetcher, one publisher); only some composed resources have published a connection secret; each XR secret holds only its own resource's values. A claim with the bound claim's name in another namespace referencing the XR gets no secret and does not rebind it. Provenance cases (both composers): XR details derived from the composed resources' connection secrets; a referenced resource is re-parented in place or recreated by another owner behind the XR controller's lagging cache and points at that owner's secret; neither the XR's nor the claim's secret may hold that owner's values."
 	c.Rule += " " + "The shared reconciler also serves an XR of an edited composition (secret keys of its own revision only)."
 	c.Rule += " " + "A foreign-controlled XR secret may appear behind the controllers' Secret cache."
+	c.Rule += " " + "XRD edit histories: the XRD author edits connectionSecretKeys 1-3 times while the real definition reconciler manages the XR controller; secrets published afterwards (a new XR; an existing XR whose secret was deleted) hold only keys the XRD allows now."
 	c.Rule += " " + "The XR secret may lose its owner references (uncontrolled, connection-typed) before the claim copies; composed resources of several XRs whose secrets share one name in different namespaces."
 	c.Rule += " " + "A claim reconcile over a stale Secret cache (no rewrite gets through); rotating details republished right after the claim's copy."
 	c.Assumptions = []string{"sim stores typed Secrets as their JSON (base64 data)", "reference extraction follows the ConnectionDetail API documentation"}
@@ -843,6 +844,11 @@ func main() {
 		}
 		if err := kit.Try(func() { pw.runSharedController(i, name) }); err != nil {
 			c.Violate("panic", name, err.Error(), nil)
+		}
+	}
+	for i := 0; i < c.N(12, 120); i++ {
+		if err := kit.Try(func() { runXRDFilterEdit(c, i) }); err != nil {
+			c.Violate("panic", fmt.Sprintf("xrd-filter-edit/%d", i), err.Error(), nil)
 		}
 	}
 	for i := 0; i < c.N(16, 160); i++ {
